@@ -3,7 +3,7 @@
    mapped to OCaml's; andb/orb inlined.  N, positive, nat stay the extracted inductives.
    No theorem depends on anything in this file. *)
 From Coq Require Import Extraction ExtrOcamlBasic.
-From MQ Require Import Base.Prelude Corr.Tok Corr.AllocCorr Corr.FramingCorr Corr.ConnCorr Mon.Proj Mon.MonGate Mon.MonTimers Mon.MonIds Mon.MonSession Mon.MonPair Corr.PropsCorr Corr.PkCorr Mon.MonDuo.
+From MQ Require Import Base.Prelude Corr.Tok Corr.AllocCorr Corr.FramingCorr Corr.ConnCorr Mon.Proj Mon.MonGate Mon.MonTimers Mon.MonIds Mon.MonSession Mon.MonPair Corr.PropsCorr Corr.PkCorr Mon.MonDuo Mon.MonContract.
 
 Extraction Language OCaml.
-Separate Extraction check_alloc mon_alloc check_framing mon_framing check_conn check_conn_proj mon_c19 mon_c11 mon_c17 mon_c15 mon_c08 mon_c12 mon_c06 mon_c07 mon_c13 mon_c14 mon_c05 mon_pair chk_pair chk_c18 mon_c18 chk_pk mon_c02 mon_c03 mon_c04 chk_c04 mon_c01 chk_duo mon_c09.
+Separate Extraction check_alloc mon_alloc check_framing mon_framing check_conn check_conn_proj mon_c19 mon_c11 mon_c17 mon_c15 mon_c08 mon_c12 mon_c06 mon_c07 mon_c13 mon_c14 mon_c05 mon_pair chk_pair chk_c18 mon_c18 chk_pk mon_c02 mon_c03 mon_c04 chk_c04 mon_c01 chk_duo mon_c09 mon_contract.
